@@ -91,7 +91,8 @@ def build(model, ranks=None, plain=False):
                     workamount_skill_sd_map=dict(wj.get("sd", {})),
                     facility_skill_map=dict(wj.get("fskills", {})),
                     absence_time_list=list(wj.get("abs", [])),
-                    main_workplace_id=wj.get("mainwp"),
+                    # an equal but not identical string object, as for IDs read from a file
+                    main_workplace_id=("".join(list(wj["mainwp"])) if wj.get("mainwp") is not None else None),
                     quality_skill_mean_map={},
                     quality_skill_sd_map={},
                 )
